@@ -315,7 +315,14 @@ fn process_deposits_for_single_pool<C: ContentAddrStore>(
         .fold(0u128, |a, b| a.saturating_add(b));
     // main logic here
     let total_liqs = if let Some(mut pool_state) = state.pools.get(pool) {
+        let liqs_before = pool_state.liqs;
         let liq = pool_state.deposit(total_lefts, total_rights);
+        // PoolState::deposit saturates the minted amount and the pool's liquidity counter at u128::MAX. A deposit
+        // that runs into that would be paid more liquidity tokens than the pool records (and could then redeem
+        // everybody else's share): leave the requests unsettled
+        if liqs_before.checked_add(liq).is_none() {
+            return;
+        }
         state.pools.insert(*pool, pool_state);
         liq
     } else {
